@@ -11,6 +11,73 @@ use std::time::Duration;
 use emit::event::ToEvent;
 use emit::platform::thread_local_ctxt::ThreadLocalCtxt;
 use emit::{Clock, Emitter, Event, Filter, Props, Rng, Timestamp};
+use serde::{Deserialize, Serialize};
+
+pub const LEVELS: [emit::Level; 4] = [emit::Level::Debug, emit::Level::Info, emit::Level::Warn, emit::Level::Error];
+
+pub fn lvl_rank(l: emit::Level) -> usize {
+    LEVELS.iter().position(|x| *x == l).unwrap_or(1)
+}
+
+/// Needles for the template-keyed filter: the start event's template is "{span_name} started", a default
+/// completion's "{span_name} completed", a macro completion's the site's own template ("s4 {x}", ...).
+pub const TPL_NEEDLES: [&str; 6] = ["started", "completed", "s4", "s1", "{x}", "a-"];
+
+/// The filter is part of the generated case. Its verdict may depend on what distinguishes a span's START
+/// event from its COMPLETION event (level, extent, err, template) or on how often it was consulted.
+#[derive(Serialize, Deserialize, Debug, Clone, PartialEq)]
+pub enum FilterSpec {
+    AcceptAll,
+    RejectAll,
+    /// accepts events whose level is at least LEVELS[i]; an event without a level counts as info
+    MinLevel(u8),
+    /// accepts only events without an extent
+    NoExtentOnly,
+    /// accepts only the first n evaluations
+    FirstN(u8),
+    /// rejects events that carry `err`
+    NoErr,
+    /// (needle, accept_if_contains): keyed on the template text
+    Tpl(u8, bool),
+}
+
+/// What a filter can see of an event that differs between a span's start and its completion.
+#[derive(Debug, Clone, PartialEq)]
+pub struct Feat {
+    pub lvl: Option<emit::Level>,
+    pub has_extent: bool,
+    pub has_err: bool,
+    pub tpl: String,
+}
+
+impl FilterSpec {
+    /// The verdict of this filter on an event with features `f` at its `nth` evaluation (0-based).
+    pub fn verdict(&self, f: &Feat, nth: usize) -> bool {
+        match self {
+            FilterSpec::AcceptAll => true,
+            FilterSpec::RejectAll => false,
+            FilterSpec::MinLevel(i) => lvl_rank(f.lvl.unwrap_or(emit::Level::Info)) >= (*i as usize % 4),
+            FilterSpec::NoExtentOnly => !f.has_extent,
+            FilterSpec::FirstN(n) => nth < *n as usize,
+            FilterSpec::NoErr => !f.has_err,
+            FilterSpec::Tpl(needle, accept_if) => f.tpl.contains(TPL_NEEDLES[*needle as usize % TPL_NEEDLES.len()]) == *accept_if,
+        }
+    }
+
+    /// false for the two constant filters
+    pub fn is_event_dependent(&self) -> bool {
+        !matches!(self, FilterSpec::AcceptAll | FilterSpec::RejectAll)
+    }
+}
+
+pub struct FilterLog {
+    pub spec: FilterSpec,
+    /// every evaluation in order: what it was shown, what it answered
+    pub evals: Vec<(Feat, bool)>,
+}
+
+pub const F_RUNTIME: usize = 0;
+pub const F_WHEN: usize = 1;
 
 thread_local! {
     // one isolated ambient context per harness thread (a fresh `ThreadLocalCtxt::new()` per case would
@@ -78,6 +145,16 @@ impl Rec {
         self.props.iter().find(|(k, _)| k == key).map(|(_, v)| v.as_str())
     }
 
+    /// the features of this (completion) event as a filter would have seen them
+    pub fn feat(&self) -> Feat {
+        Feat {
+            lvl: self.lvl,
+            has_extent: self.extent.is_some(),
+            has_err: self.prop("err").is_some(),
+            tpl: self.tpl.clone(),
+        }
+    }
+
     pub fn user_props(&self) -> Vec<(String, String)> {
         const WELL_KNOWN: [&str; 7] = ["evt_kind", "span_name", "lvl", "err", "trace_id", "span_id", "span_parent"];
         self.props
@@ -97,13 +174,14 @@ pub struct St {
     pub phase: Cell<u32>,
     pub rng_avail: bool,
     pub rng_ctr: Cell<u64>,
-    pub verdict: bool,
-    /// (trace_id, span_id) of every event handed to the filter
+    /// [runtime filter, `when:` filter]
+    pub filters: [RefCell<FilterLog>; 2],
+    /// (trace_id, span_id) of every event handed to a filter
     pub filter_seen: RefCell<Vec<(Option<u128>, Option<u64>)>>,
 }
 
 impl St {
-    pub fn new(verdict: bool, clock_script: Vec<Option<u32>>, rng_avail: bool, rng_seed: u64) -> Rc<St> {
+    pub fn new(filter: FilterSpec, when: FilterSpec, clock_script: Vec<Option<u32>>, rng_avail: bool, rng_seed: u64) -> Rc<St> {
         Rc::new(St {
             recs: RefCell::new(Vec::new()),
             clock_script,
@@ -112,7 +190,10 @@ impl St {
             phase: Cell::new(0),
             rng_avail,
             rng_ctr: Cell::new(rng_seed | 1),
-            verdict,
+            filters: [
+                RefCell::new(FilterLog { spec: filter, evals: Vec::new() }),
+                RefCell::new(FilterLog { spec: when, evals: Vec::new() }),
+            ],
             filter_seen: RefCell::new(Vec::new()),
         })
     }
@@ -188,17 +269,29 @@ impl Rng for RngH {
     }
 }
 
-/// Filter with a generated, constant verdict; remembers the ids of what it was asked about.
+/// The generated filter (`which` = F_RUNTIME or F_WHEN); logs every evaluation and the ids it was shown.
 #[derive(Clone)]
-pub struct VerdictFilter(pub Rc<St>);
+pub struct SpecFilter {
+    pub which: usize,
+    pub st: Rc<St>,
+}
 
-impl Filter for VerdictFilter {
+impl Filter for SpecFilter {
     fn matches<E: ToEvent>(&self, evt: E) -> bool {
         let evt = evt.to_event();
         let t = evt.props().pull::<emit::TraceId, _>("trace_id").map(|t| t.to_u128());
         let s = evt.props().pull::<emit::SpanId, _>("span_id").map(|s| s.to_u64());
-        self.0.filter_seen.borrow_mut().push((t, s));
-        self.0.verdict
+        self.st.filter_seen.borrow_mut().push((t, s));
+        let feat = Feat {
+            lvl: evt.props().pull::<emit::Level, _>("lvl"),
+            has_extent: evt.extent().is_some(),
+            has_err: evt.props().get("err").is_some(),
+            tpl: evt.tpl().to_string(),
+        };
+        let mut log = self.st.filters[self.which].borrow_mut();
+        let verdict = log.spec.verdict(&feat, log.evals.len());
+        log.evals.push((feat, verdict));
+        verdict
     }
 }
 
@@ -217,6 +310,19 @@ impl Emitter for RecEmitter {
     fn blocking_flush(&self, _: Duration) -> bool {
         true
     }
+}
+
+pub type Rt = emit::runtime::Runtime<RecEmitter, SpecFilter, ThreadLocalCtxt, ClockH, RngH>;
+
+/// An explicit runtime over the case's recording components; its emitter records as `emitter_id`.
+pub fn build_rt(st: &Rc<St>, emitter_id: u32) -> Rt {
+    emit::runtime::Runtime::build(
+        RecEmitter { id: emitter_id, st: st.clone() },
+        SpecFilter { which: F_RUNTIME, st: st.clone() },
+        ctxt(),
+        ClockH(st.clone()),
+        RngH(st.clone()),
+    )
 }
 
 /// The extent clause of the property, shared by both domains.
